@@ -520,7 +520,7 @@ pub fn is_superclass(sup: &str, class: &str) -> bool {
 
 /// Structural corner cases the uniform generator reaches rarely: empty selections, deep chains, wide
 /// same-class columns, reference cycles and fan-in, equal values meeting in one file, long values.
-pub fn shaped_dom(rng: &mut StdRng, xml_safe: bool) -> WeakDom {
+pub fn shaped_dom(rng: &mut StdRng, xml_safe: bool, scale: bool) -> WeakDom {
     let mut dom = WeakDom::new(InstanceBuilder::new("DataModel"));
     let root = dom.root_ref();
     let shared_pool: Vec<SharedString> = vec![
@@ -528,7 +528,25 @@ pub fn shaped_dom(rng: &mut StdRng, xml_safe: bool) -> WeakDom {
         SharedString::new(vec![0, 1, 2, 3, 255]),
         SharedString::new(Vec::new()),
     ];
-    match rng.gen_range(0..10) {
+    match if scale { 10 } else { rng.gen_range(0..10) } {
+        10 => {
+            // several hundred instances: referents, parent links and column positions that need more than one byte
+            let n = rng.gen_range(260..340);
+            let mut all = vec![root];
+            for i in 0..n {
+                let parent = if rng.gen_bool(0.5) { root } else { all[rng.gen_range(0..all.len())] };
+                let class = if i % 3 == 0 { "VerifUnknownB" } else { "VerifUnknownA" };
+                let mut b = InstanceBuilder::new(class).with_name(format!("S{}", i));
+                if i % 2 == 0 {
+                    b.add_property("UInt32", Variant::Int32(i as i32 * 65_537 - 7));
+                }
+                all.push(dom.insert(parent, b));
+            }
+            for i in (1..all.len()).step_by(5) {
+                let t = all[rng.gen_range(1..all.len())];
+                dom.get_by_ref_mut(all[i]).unwrap().properties.insert("URef".into(), Variant::Ref(t));
+            }
+        }
         0 => {}
         1 => {
             let mut parent = root;
